@@ -129,7 +129,9 @@ def typed(eng, su, st, name, v, r):
     if name == "DataParameter":
         return z3.And(r == v, Val.is_O(r), IS_NDARRAY(Val.ref(r)))
     if name == "DataTypeParameter":
-        return VT_HASVAL(su.self_term, r)
+        # a type of the table, obtained from exactly one of its names (the consumers of the raw text rely on the exact spelling) or given as such a type
+        return z3.And(VT_HASVAL(su.self_term, r),
+                      z3.Or(z3.And(VT_HASKEY(su.self_term, v), r == VT_GET(su.self_term, v)), z3.And(Val.is_T(v), r == v)))
     raise Unsupported("no TYPED predicate for %s" % name)
 
 
